@@ -55,6 +55,9 @@ theories/SolverProofs.vos theories/SolverProofs.vok theories/SolverProofs.requir
 theories/Par.vo theories/Par.glob theories/Par.v.beautified theories/Par.required_vo: theories/Par.v theories/Base.vo theories/Fringe.vo theories/FringeProofs.vo theories/Fringe2.vo theories/DP.vo theories/Cache.vo theories/Dom.vo theories/Mdd.vo theories/Solver.vo
 theories/Par.vio: theories/Par.v theories/Base.vio theories/Fringe.vio theories/FringeProofs.vio theories/Fringe2.vio theories/DP.vio theories/Cache.vio theories/Dom.vio theories/Mdd.vio theories/Solver.vio
 theories/Par.vos theories/Par.vok theories/Par.required_vos: theories/Par.v theories/Base.vos theories/Fringe.vos theories/FringeProofs.vos theories/Fringe2.vos theories/DP.vos theories/Cache.vos theories/Dom.vos theories/Mdd.vos theories/Solver.vos
+theories/ParProofs.vo theories/ParProofs.glob theories/ParProofs.v.beautified theories/ParProofs.required_vo: theories/ParProofs.v theories/Base.vo theories/Fringe.vo theories/FringeProofs.vo theories/Fringe2.vo theories/DP.vo theories/Cache.vo theories/Dom.vo theories/Mdd.vo theories/Solver.vo theories/Par.vo theories/SolverProofs.vo
+theories/ParProofs.vio: theories/ParProofs.v theories/Base.vio theories/Fringe.vio theories/FringeProofs.vio theories/Fringe2.vio theories/DP.vio theories/Cache.vio theories/Dom.vio theories/Mdd.vio theories/Solver.vio theories/Par.vio theories/SolverProofs.vio
+theories/ParProofs.vos theories/ParProofs.vok theories/ParProofs.required_vos: theories/ParProofs.v theories/Base.vos theories/Fringe.vos theories/FringeProofs.vos theories/Fringe2.vos theories/DP.vos theories/Cache.vos theories/Dom.vos theories/Mdd.vos theories/Solver.vos theories/Par.vos theories/SolverProofs.vos
 theories/Width.vo theories/Width.glob theories/Width.v.beautified theories/Width.required_vo: theories/Width.v theories/Base.vo
 theories/Width.vio: theories/Width.v theories/Base.vio
 theories/Width.vos theories/Width.vok theories/Width.required_vos: theories/Width.v theories/Base.vos
@@ -100,3 +103,9 @@ theories/Props/C12.vos theories/Props/C12.vok theories/Props/C12.required_vos: t
 theories/Props/C20.vo theories/Props/C20.glob theories/Props/C20.v.beautified theories/Props/C20.required_vo: theories/Props/C20.v theories/Base.vo theories/Fringe.vo theories/DP.vo theories/Cache.vo theories/Dom.vo theories/Mdd.vo theories/Viz.vo theories/MddStruct.vo theories/MddExact.vo
 theories/Props/C20.vio: theories/Props/C20.v theories/Base.vio theories/Fringe.vio theories/DP.vio theories/Cache.vio theories/Dom.vio theories/Mdd.vio theories/Viz.vio theories/MddStruct.vio theories/MddExact.vio
 theories/Props/C20.vos theories/Props/C20.vok theories/Props/C20.required_vos: theories/Props/C20.v theories/Base.vos theories/Fringe.vos theories/DP.vos theories/Cache.vos theories/Dom.vos theories/Mdd.vos theories/Viz.vos theories/MddStruct.vos theories/MddExact.vos
+theories/Props/C04.vo theories/Props/C04.glob theories/Props/C04.v.beautified theories/Props/C04.required_vo: theories/Props/C04.v theories/Base.vo theories/Fringe.vo theories/FringeProofs.vo theories/Fringe2.vo theories/DP.vo theories/Cache.vo theories/Dom.vo theories/Mdd.vo theories/Solver.vo theories/SolverProofs.vo theories/Par.vo theories/ParProofs.vo
+theories/Props/C04.vio: theories/Props/C04.v theories/Base.vio theories/Fringe.vio theories/FringeProofs.vio theories/Fringe2.vio theories/DP.vio theories/Cache.vio theories/Dom.vio theories/Mdd.vio theories/Solver.vio theories/SolverProofs.vio theories/Par.vio theories/ParProofs.vio
+theories/Props/C04.vos theories/Props/C04.vok theories/Props/C04.required_vos: theories/Props/C04.v theories/Base.vos theories/Fringe.vos theories/FringeProofs.vos theories/Fringe2.vos theories/DP.vos theories/Cache.vos theories/Dom.vos theories/Mdd.vos theories/Solver.vos theories/SolverProofs.vos theories/Par.vos theories/ParProofs.vos
+theories/Props/C03.vo theories/Props/C03.glob theories/Props/C03.v.beautified theories/Props/C03.required_vo: theories/Props/C03.v theories/Base.vo theories/Fringe.vo theories/FringeProofs.vo theories/Fringe2.vo theories/DP.vo theories/Cache.vo theories/Dom.vo theories/Mdd.vo theories/Solver.vo theories/SolverProofs.vo theories/Par.vo theories/ParProofs.vo
+theories/Props/C03.vio: theories/Props/C03.v theories/Base.vio theories/Fringe.vio theories/FringeProofs.vio theories/Fringe2.vio theories/DP.vio theories/Cache.vio theories/Dom.vio theories/Mdd.vio theories/Solver.vio theories/SolverProofs.vio theories/Par.vio theories/ParProofs.vio
+theories/Props/C03.vos theories/Props/C03.vok theories/Props/C03.required_vos: theories/Props/C03.v theories/Base.vos theories/Fringe.vos theories/FringeProofs.vos theories/Fringe2.vos theories/DP.vos theories/Cache.vos theories/Dom.vos theories/Mdd.vos theories/Solver.vos theories/SolverProofs.vos theories/Par.vos theories/ParProofs.vos
